@@ -30,7 +30,11 @@ pub(crate) fn scan_dimen<S: TexlangState>(
             // TeX.2021.449
             use super::integer::InternalNumber;
             match super::integer::parse_internal_number(input, first_token, command_ref)? {
-                InternalNumber::Integer(i) => (negative * i.signum(), i.abs(), Scaled::ZERO),
+                // i32::MIN has no absolute value: any magnitude >= 2^30 overflows every
+                // unit in the same way, so saturating is exact here.
+                InternalNumber::Integer(i) => {
+                    (negative * i.signum(), i.saturating_abs(), Scaled::ZERO)
+                }
                 InternalNumber::Dimen(d) => {
                     return Ok(d * negative);
                 }
